@@ -206,8 +206,41 @@ def gen_one(rng, w, tags, wts):
     return None
 
 
+class FreshProcess(Leg):
+    """the process-boundary clause: a graph un-pickled into a fresh interpreter, caching on there"""
+    name = "freshproc"
+    imports = "From EG Require Import Base."
+    checkfn = "(fun b : bool => b)"
+    case_type = "bool"
+    extended_factor = 1
+    rule = ("random graphs with warm caches dumped with nrpickler, loaded by pickle and dill in a FRESH interpreter with "
+            "NEIGHBOR_CACHING on; neighbors() of every vertex (asked twice: miss then hit) and the three traversals must answer "
+            "as on the original with caching off")
+    quick_n = 4
+    thorough_n = 60
+
+    def generate(self, rng, n):
+        from .. import renderh as R
+        for _ in range(n):
+            ops, u, vids = R.gen_render_graph(rng)
+            yield {"ops": ops, "u": u, "proto": None, "warm": rng.random() < 0.7, "cache_dump": rng.random() < 0.5, "cache_load": True,
+                   "big": False, "fresh": True}
+
+    def observe(self, case):
+        from . import c10
+        return c10.RoundTrip().observe(case)
+
+    def oracle(self, case, obs):
+        return obs["problems"][:3]
+
+    def term(self, case, obs):
+        return "true"
+
+
 class C05(Prop):
     pid = "C05"
-    legs = [CacheHistory()]
+    legs = [CacheHistory(), FreshProcess()]
     assumptions = ["filters are pure functions of (link, vertex) identity and compare by function identity as memo keys",
-                   "the fresh-interpreter clause (un-pickled graph, caching on) is exercised by the C10 legs"]
+                   "the fresh-interpreter clause is decided on the implementation only (leg freshproc and the C10 legs): the model has "
+                   "no process boundary — un-pickling preserves the per-object memo and resets only the statistics table, which is "
+                   "not part of the model state"]
